@@ -94,6 +94,24 @@ def step (s : St) (j : Json) : Except String (St × Json × List Fired) := do
       | _ => throw "bad feed"
     let fired := (feedsSpecViolations s.p s.st il).map fun n => ({ name := "current_feeds_" ++ n, detail := out } : Fired)
     pure (s, mkObj [("feeds", feedsJson feeds)], fired)
+  | "reimport" =>
+    -- genesis export → validate → import on a store branch: the totals recomputed from the votes are the chain's totals
+    let mut fired : List Fired := []
+    let ierr ← jstr out "err"
+    if ierr != "" then
+      fired := fired ++ [{ name := "reachable_state_rejected_as_genesis", detail := mkObj [("err", js ierr)] }]
+    else
+      let itot ← jarr out "totals"
+      let itotL ← itot.mapM fun e => do
+        match e with
+        | .arr #[a, b] => pure ((← asStr a), (← asInt b))
+        | _ => throw "bad totals"
+      for id in (s.st.sigs ++ itotL.map (·.1)).eraseDups do
+        let expect : Int := (s.st.voters.map (fun v => powerIn (s.st.votes v) id)).foldl (· + ·) 0
+        let got : Int := ((itotL.filter (fun e => e.1 = id)).map (·.2)).foldl (· + ·) 0
+        if expect ≠ got then
+          fired := fired ++ [{ name := "total_ne_sum_of_votes", detail := mkObj [("signal", js id), ("expect", ji expect), ("got", ji got), ("afterGenesisImport", jb true)] }]
+    pure (s, out, fired)
   | _ => throw s!"unknown op {op}"
 
 def initSt (j : Json) : St :=
